@@ -79,6 +79,19 @@ def helper_scalars(db, call):
     return (kind, [(nm, bits[1]) for nm in names[1]])
 
 
+def helper_target(call):
+    """For `helper(&mut collection, &[names], bits)`: the local that receives the scalars."""
+    for a in call.get("args", []):
+        u = a
+        while u.get("k") in ("AddrOf", "DropTemps", "Paren") and "e" in u:
+            if u.get("k") == "AddrOf" and u.get("mut") in (True, "Mut", "mut"):
+                inner = unq(u["e"])
+                if inner.get("k") == "Path" and "local" in inner.get("res", {}):
+                    return inner["res"]["hid"]
+            u = u["e"]
+    return None
+
+
 def eval_cc_arm(body_expr, db=None):
     """Evaluate one arm of CallingConvention::new to {field: value}."""
     env = {}      # local hid -> list / set of scalars or literal
@@ -114,6 +127,12 @@ def eval_cc_arm(body_expr, db=None):
                 env[hid] = ("list", [])
         elif s["k"] == "Expr":
             e = unq(s["e"])
+            hs = helper_scalars(db, e) if e.get("k") == "Call" else None
+            if hs is not None:
+                tgt = helper_target(e)
+                if tgt in env and env[tgt] is not None and env[tgt][0] in ("set", "list"):
+                    env[tgt][1].extend(hs[1])
+                    continue
             if e.get("k") == "MethodCall" and e["name"] in ("insert", "push") and e["args"]:
                 rcv = unq(e["recv"])
                 sc = scalar_of(e["args"][0])
